@@ -299,6 +299,10 @@ def run(R):
             ok = ok and p is None and bool(redirect)
         R.check(ok and gns, "C15.REDIRECT", mq, R.site(m), "in asyncio mode .asynq(...) returns .asyncio(*args, **kwargs)",
                 "in asyncio mode %s does not redirect to .asyncio(*args, **kwargs)" % m.name)
+    # the synchronous entry of bound methods goes through the decorator's __call__ (where the refusal lives), and .asyncio()
+    # of a bound method passes the instance: the binder rules of C09
+    from . import c09
+    c09.run(R, "C15.CALLCONV")
     R.require_min("C15.ENGINES", 7)
     R.require_min("C15.MODE", 5)
 
